@@ -115,5 +115,6 @@ TStatusExact   == AtRest => StatusExact
 TNoRouteExact  == AtRest => NoRouteExact
 TraceAccounted == cnt = gcode /\ \A c \in Keys : late[c] >= 0
 HW == TLCSet(1, IF TLCGet(1) < l THEN l ELSE TLCGet(1))
-Accepted == TLCGet(1) = Len(TraceLog) + 1
+Accepted == \/ TLCGet(1) = Len(TraceLog) + 1
+            \/ PrintT(<<"first event that no action of the specification explains:", TLCGet(1), TraceLog[TLCGet(1)]>>) /\ FALSE
 =============================================================================
